@@ -141,6 +141,73 @@ do_init(IMB_MGR *m, const char *init)
         }
 }
 
+/* Application traffic between two initialisations of the same manager: the self test of the
+ * next init must not depend on what earlier jobs left in the descriptor ring (hash/cipher
+ * offsets, AAD/IV lengths, chain order, ...).  More than IMB_MAX_JOBS jobs so the ring wraps. */
+static void
+traffic(IMB_MGR *m)
+{
+        static uint8_t buf[512], out[512], tag[64], key[32], iv[16], ipad[64], opad[64];
+        static DECLARE_ALIGNED(uint32_t ek[15 * 4], 16);
+        static DECLARE_ALIGNED(uint32_t dk[15 * 4], 16);
+        static struct gcm_key_data gk;
+
+        for (unsigned i = 0; i < sizeof(buf); i++)
+                buf[i] = (uint8_t) (i * 7 + 1);
+        for (unsigned i = 0; i < 32; i++)
+                key[i] = (uint8_t) (i + 3);
+        IMB_AES_KEYEXP_128(m, key, ek, dk);
+        IMB_AES128_GCM_PRE(m, key, &gk);
+        imb_hmac_ipad_opad(m, IMB_AUTH_HMAC_SHA_1, key, 20, ipad, opad);
+        for (int n = 0; n < 2 * IMB_MAX_JOBS + 44; n++) {
+                IMB_JOB *j = IMB_GET_NEXT_JOB(m);
+
+                memset(j, 0, sizeof(*j));
+                j->src = buf;
+                j->dst = out + 44;
+                j->iv = iv;
+                j->auth_tag_output = tag;
+                j->user_data = (void *) (uintptr_t) (n + 1);
+                j->user_data2 = (void *) (uintptr_t) 0x5a5a5a5a;
+                if (n % 3 != 2) {
+                        j->cipher_mode = IMB_CIPHER_CBC;
+                        j->cipher_direction = (n % 3) ? IMB_DIR_DECRYPT : IMB_DIR_ENCRYPT;
+                        j->chain_order = (n % 3) ? IMB_ORDER_HASH_CIPHER : IMB_ORDER_CIPHER_HASH;
+                        j->hash_alg = IMB_AUTH_HMAC_SHA_1;
+                        j->enc_keys = ek;
+                        j->dec_keys = dk;
+                        j->key_len_in_bytes = 16;
+                        j->iv_len_in_bytes = 16;
+                        j->cipher_start_src_offset_in_bytes = 44;
+                        j->msg_len_to_cipher_in_bytes = 64 + 16 * (n % 5);
+                        j->hash_start_src_offset_in_bytes = 20;
+                        j->msg_len_to_hash_in_bytes = 150;
+                        j->auth_tag_output_len_in_bytes = 12;
+                        j->u.HMAC._hashed_auth_key_xor_ipad = ipad;
+                        j->u.HMAC._hashed_auth_key_xor_opad = opad;
+                } else {
+                        j->cipher_mode = IMB_CIPHER_GCM;
+                        j->cipher_direction = IMB_DIR_ENCRYPT;
+                        j->chain_order = IMB_ORDER_CIPHER_HASH;
+                        j->hash_alg = IMB_AUTH_AES_GMAC;
+                        j->enc_keys = &gk;
+                        j->dec_keys = &gk;
+                        j->key_len_in_bytes = 16;
+                        j->iv_len_in_bytes = 12;
+                        j->cipher_start_src_offset_in_bytes = 32;
+                        j->msg_len_to_cipher_in_bytes = 100;
+                        j->hash_start_src_offset_in_bytes = 32;
+                        j->msg_len_to_hash_in_bytes = 100;
+                        j->auth_tag_output_len_in_bytes = 16;
+                        j->u.GCM.aad = buf + 3;
+                        j->u.GCM.aad_len_in_bytes = 20;
+                }
+                (void) IMB_SUBMIT_JOB(m);
+        }
+        while (IMB_FLUSH_JOB(m) != NULL)
+                ;
+}
+
 int
 main(int argc, char **argv)
 {
@@ -219,6 +286,10 @@ main(int argc, char **argv)
                                m->imb_errno, (unsigned long long) m->features, (unsigned) m->used_arch,
                                (unsigned) m->used_arch_type, c->bad);
                         fflush(stdout);
+                        /* the next phase re-initialises a manager that has been used */
+                        if (imb_get_errno(m) == 0 || (m->features & IMB_FEATURE_SELF_TEST))
+                                if (m->used_arch != IMB_ARCH_NONE)
+                                        traffic(m);
                 }
                 free(c);
                 free_mb_mgr(m);
